@@ -165,7 +165,7 @@ func runScripts(e *lib.Env) (int, int, []string) {
 			return
 		}
 		if crashed, why := lib.GoCrash(res); crashed {
-			e.Violation("script:crash:"+lib.PanicSite(res.Stderr), "a codec round-trip script crashes the interpreter: "+why, "php", []byte(j.src))
+			e.Violation("script:crash:"+normSite(lib.PanicSite(res.Stderr)), "a codec round-trip script crashes the interpreter: "+why, "php", []byte(j.src))
 			return
 		}
 		lines := strings.Split(res.Stdout, "\n")
